@@ -276,6 +276,55 @@ def check_clause(chk, sc, out, cfg, tn):
     return True
 
 
+# ---- A2: two variants in one call ---------------------------------------------------------------------------------
+_PM2 = {}
+
+
+def check_two_variants(chk, items, tn):
+    """Two library models of the same shape as the two parameter variants of ONE parametric linear model, simulated in one stacked-time call
+    on a two-variant databox whose variants have their surprises in different periods (so each variant has its own frames); the databox
+    also carries parameter entries of its own - as Databox.steady leaves them - which are STALE (the other variant's values) and must not
+    be used (parameters_from_data is off).  Every variant must follow the first-order path of its own model and inputs."""
+    from .C01 import PARAM_SRC, param_values
+    (sc1, out1, path1), (sc2, out2, path2) = items
+    ids = (sc1["id"], sc2["id"])
+    payload = {"kind": "linear-variants", "sc": [_plain(sc1), _plain(sc2)]}
+    tag = "stacked-variants:%s+%s" % ids
+    desc = ("one parametric linear model with two variants (coefficients of %s | %s), stacked_time on a two-variant databox with stale parameter entries; variant 0: init=%s unanticipated=%s "
+            "anticipated=%s; variant 1: init=%s unanticipated=%s anticipated=%s" % (ids + (_plain(sc1["init"]), sorted(sc1["u"]), sorted(sc1["a"]), _plain(sc2["init"]), sorted(sc2["u"]), sorted(sc2["a"]))))
+    try:
+        if ids not in _PM2:
+            m = ir.Simultaneous.from_string(PARAM_SRC, linear=True)
+            m.alter_num_variants(2)
+            pv = [param_values(out1), param_values(out2)]
+            m.assign(**{n: [p_[n] for p_ in pv] for n in pv[0]})
+            quiet(m.steady)
+            m.solve()
+            _PM2[ids] = (m, pv)
+        m, pv = _PM2[ids]
+        db = ir.Databox.steady(m, ir.Span(per(-1), per(tn + 3)))
+        for n in pv[0]:
+            db[n] = [pv[1][n], pv[0][n]]                    # stale: the other variant's value
+        paths = (path1, path2)
+        outs = (out1, out2)
+        for k in (-1, 0):
+            db["x"][per(k)] = [float(fr(p_[k][0])) for p_ in paths]
+        for k in range(1, tn + 1):
+            db["ex"][per(k)] = [float(fr(o["u"][k - 1][0])) for o in outs]
+            db["ant_ex"][per(k)] = [float(fr(o["a"][k - 1][0])) for o in outs]
+        sim, info = quiet(m.simulate, db, ir.Span(per(1), per(tn)), method="stacked_time", return_info=True, when_fails="silent", solver_settings=dict(SS))
+    except Exception as ex:
+        chk.mismatch(tag + ":raised:" + type(ex).__name__, desc + ": raised %r" % (ex,), payload)
+        return
+    for v, p_ in enumerate(paths):
+        for k in range(1, tn + 1):
+            e = float(fr(p_[k][0]))
+            g = float(sim["x"].get_data(per(k))[0, v])
+            if not abs(g - e) <= TOL * max(1.0, abs(e)):
+                chk.mismatch(tag + ":path", desc + ": x of variant %d in period %d is %r, the first-order path of that variant's model and inputs is %r" % (v, k, g, e), payload)
+                return
+
+
 def run(chk):
     thorough = chk.tier == "thorough"
     dump = chk.scratch.file("lre.dump")
@@ -283,12 +332,15 @@ def run(chk):
     chk.add_tlc(r, "LinearREMC")
     n = done = 0
     per_cfg = {}
+    by_id = {}
     i = 0
     for st in tlaval.parse_dump(dump, want=lambda b: "fin = TRUE" in b):
         sc, out, path = st["sc"], st["out"], dict(st["path"])
         if sc["dev"]:
             continue            # stacked time has no deviation mode
         i += 1
+        if sc["id"] in ("L2", "L9"):
+            by_id.setdefault(sc["id"], []).append((sc, out, path))
         for ci, cfg in enumerate(CONFIGS):
             if cfg[0] == "period_by_period" and out["fwd"] != 0:
                 continue
@@ -304,6 +356,24 @@ def run(chk):
             chk.sample({"scenario": _plain(sc), "source": list(out["src"]), "spec_path": {str(k): _plain(v) for k, v in sorted(path.items())},
                         "frame_breaks": sorted(out["breaks"])})
     os.remove(dump)
+    # two variants in one call: the k-th scenario of one model with a scenario of the other model whose surprises fall in other periods
+    nv = 0
+    for lst in by_id.values():
+        lst.sort(key=lambda t: repr(_plain(t[0])))
+    A, B = by_id.get("L2", []), by_id.get("L9", [])
+    for k, ita in enumerate(A):
+        if nv >= (400 if thorough else 40):
+            break
+        for d in range(1, len(B)):
+            itb = B[(k + d * 7) % len(B)]
+            if {e[0] for e in ita[0]["u"]} != {e[0] for e in itb[0]["u"]}:
+                check_two_variants(chk, [ita, itb] if k % 2 == 0 else [itb, ita], 4)
+                nv += 1
+                break
+    if not nv:
+        raise MachineryError("LinearREMC: no pair of scenarios for the two-variant stacked-time simulation")
+    chk.notes["two_variant_stacked_time_simulations"] = nv
+    chk.replayed += nv
     dump = chk.scratch.file("stacked.dump")
     r = tlc.must_pass(tlc.run("StackedMC", "StackedMC.thorough.cfg" if thorough else "StackedMC.cfg", chk.scratch, dump=dump, workers=8, timeout=1800), "StackedMC")
     chk.add_tlc(r, "StackedMC")
